@@ -577,6 +577,11 @@ func Project(t *rapid.T, o ProjectOpts) *model.Project {
 				e.Notes = append(e.Notes, rapid.SampledFrom([]string{"", "first", "an item"}).Draw(t, "en"))
 			}
 		}
+		if o.EnumNotes && rapid.IntRange(0, 2).Draw(t, "enumbetween") == 0 {
+			for i := 0; i <= len(items); i++ {
+				e.Between = append(e.Between, rapid.SampledFrom([]string{"", "", "the next ones are special", "-"}).Draw(t, "eb"))
+			}
+		}
 		p.Enums = append(p.Enums, e)
 	}
 	so := ScalarOpts{Enums: p.Enums, Satisfied: o.Satisfied}
